@@ -455,6 +455,13 @@ write_code(ostream &out_code,ostream * out_include, InterrogateModuleDef *def) {
   // a simple array of function pointers by index.
   remap_indices(remaps);
 
+  // A remap for which no wrapper entry was made (e.g. because its return type
+  // was not understood) has no index, and does not belong in the tables.
+  remaps.erase(std::remove_if(remaps.begin(), remaps.end(),
+                              [](const FunctionRemap *remap) {
+                                return remap->_wrapper_index == 0;
+                              }), remaps.end());
+
   // Get the function wrappers in index-number order.
   int num_wrappers = 0;
   map<int, FunctionRemap *> wrappers_by_index;
